@@ -41,6 +41,135 @@ def pump (s : SB) : List Nat → Bytes → SB × Bytes × String
     | .err s' e => (s', acc, "err " ++ e)
     | .panic => (s, acc, "panic")
 
+
+/-! ### arm tags (coverage only) -/
+
+def cmpTag (pre : String) (x lim : Nat) : String :=
+  if x + 1 < lim then pre ++ "-lt" else if x + 1 = lim then pre ++ "-eq-minus1"
+  else if x = lim then pre ++ "-eq" else if x = lim + 1 then pre ++ "-eq-plus1" else pre ++ "-gt"
+
+/-- which branch of the UTF-8 validator rejects / the classes of sequences seen -/
+def utf8Arms : Bytes → List String
+  | [] => []
+  | b0 :: r =>
+    if b0 < 128 then "u8-ascii" :: utf8Arms r
+    else if 194 ≤ b0 && b0 ≤ 223 then
+      match r with
+      | b1 :: r' => if cont b1 then "u8-2" :: utf8Arms r' else ["u8-2-badcont"]
+      | _ => ["u8-2-trunc"]
+    else if 224 ≤ b0 && b0 ≤ 239 then
+      match r with
+      | b1 :: b2 :: r' =>
+        let lo := if b0 = 224 then 160 else 128
+        let hi := if b0 = 237 then 159 else 191
+        let cls := if b0 = 224 then "u8-3-e0" else if b0 = 237 then "u8-3-ed" else "u8-3"
+        if ¬ (lo ≤ b1 && b1 ≤ hi) then [cls ++ "-bad2nd"]
+        else if ¬ cont b2 then [cls ++ "-badcont"]
+        else cls :: utf8Arms r'
+      | _ => ["u8-3-trunc"]
+    else if 240 ≤ b0 && b0 ≤ 244 then
+      match r with
+      | b1 :: b2 :: b3 :: r' =>
+        let lo := if b0 = 240 then 144 else 128
+        let hi := if b0 = 244 then 143 else 191
+        let cls := if b0 = 240 then "u8-4-f0" else if b0 = 244 then "u8-4-f4" else "u8-4"
+        if ¬ (lo ≤ b1 && b1 ≤ hi) then [cls ++ "-bad2nd"]
+        else if ¬ (cont b2 && cont b3) then [cls ++ "-badcont"]
+        else cls :: utf8Arms r'
+      | _ => ["u8-4-trunc"]
+    else [if b0 < 194 then "u8-lead-80-c1" else "u8-lead-f5-ff"]
+
+def stringArms (o : Opts) (b : Bytes) : List String :=
+  match readU32 b with
+  | none => ["str-no-length"]
+  | some (n, r) =>
+    if n = 4294967295 then ["str-null"]
+    else if n ≥ 2147483648 then [if n = 4294967294 then "str-len-minus2" else "str-len-negative"]
+    else
+      let a := cmpTag "str-len-vs-max" n o.maxStr
+      if n > o.maxStr then [a]
+      else if r.length < n then [a, if r.length + 1 = n then "str-short-by-1" else "str-short"]
+      else [a, if n = 0 then "str-empty" else "str-nonempty", if r.length = n then "str-ends-frame" else "str-trailing-bytes"]
+        ++ (utf8Arms (r.take n)).eraseDups
+
+def tyTag : MType → String
+  | .invalid => "invalid" | .hello => "hello" | .ack => "ack" | .chunk => "chunk" | .error => "error"
+
+/-- one call of `decode` -/
+def decodeArms (o : Opts) (b : Bytes) : List String :=
+  if b.length < 8 then ["buf-lt8"] else if b.length = 8 then ["buf-eq8"] else
+  match b with
+  | t0 :: t1 :: t2 :: t3 :: r =>
+    match readU32 r with
+    | none => []
+    | some (size, _) =>
+      let ty := mtype t0 t1 t2 t3
+      let base := ["ty-" ++ tyTag ty, if b.length = 9 then "buf-eq9" else "buf-gt9",
+        if o.maxMsg = 0 then "size-nolimit" else cmpTag "size-vs-max" size o.maxMsg]
+      if o.early = true ∧ o.maxMsg > 0 ∧ size > o.maxMsg then base
+      else
+        let base := base ++ [cmpTag "len-vs-size" b.length size]
+        if b.length < size then base
+        else
+          let fb := b.take size
+          let szc := if size = 0 then "size-0" else if size < 8 then "size-1-7" else if size = 8 then "size-8"
+            else if size < 12 then "size-9-11" else if size = 12 then "size-12" else "size-gt12"
+          let detail := match ty with
+            | .hello => if size < 28 then ["hel-short"] else stringArms o (fb.drop 28)
+            | .error => if size < 12 then ["err-short"] else stringArms o (fb.drop 12)
+            | .ack => [if size < 28 then "ack-short" else if size = 28 then "ack-exact" else "ack-trailing"]
+            | .chunk => [if size < 12 then "chunk-short" else "chunk-ok"]
+            | .invalid => [if t3 = 70 ∨ t3 = 67 ∨ t3 = 65 then "invalid-type-code" else "invalid-final-flag"]
+          let res := match parse o ty fb with
+            | some _ => "parse-ok"
+            | none => "parse-fail"
+          base ++ [szc, res] ++ detail
+  | _ => []
+
+/-- all `decode` calls of one drain -/
+def drainArms (o : Opts) : Nat → Bytes → List String
+  | 0, _ => []
+  | fuel + 1, b =>
+    match decodeStep o b with
+    | .frame _ r => decodeArms o b ++ "more-in-buffer-after-frame" :: drainArms o fuel r
+    | _ => decodeArms o b
+
+def feedArms (o : Opts) (s : RState) (seg : Bytes) : List String :=
+  match s with
+  | none => ["feed-after-error"]
+  | some buf => (if seg.isEmpty then ["seg-empty"] else if seg.length = 1 then ["seg-1byte"] else ["seg-many"]) ++
+      (if buf.isEmpty then ["buf-was-empty"] else ["buf-had-rest"]) ++ (drainArms o (buf.length + seg.length + 1) (buf ++ seg)).eraseDups
+
+def writeArms (s : SB) (nid : Nat) (msg : Bytes) : List String :=
+  if s.reading.isSome then ["w-while-reading"] else
+  let body := msg.length - nid
+  let a := if s.maxMsg = 0 then "w-maxmsg-0" else cmpTag "w-body-vs-maxmsg" body s.maxMsg
+  if s.maxMsg > 0 ∧ body > s.maxMsg then [a]
+  else if s.sendSize = 0 then [a, "w-unchunked"]
+  else if s.sendSize < 8196 then [a, cmpTag "w-bufsize-vs-min" s.sendSize 8196]
+  else
+    let cap := s.sendSize - 24
+    let n := (msg.length + cap - 1) / cap
+    let fit := if msg.length % cap = 0 then "w-last-chunk-full" else if msg.length % cap = 1 then "w-last-chunk-1byte" else "w-last-chunk-partial"
+    let c := if s.maxChunks = 0 then "w-maxchunks-0" else cmpTag "w-chunks-vs-max" n s.maxChunks
+    [a, cmpTag "w-bufsize-vs-min" s.sendSize 8196, if n = 1 then "w-1-chunk" else if n = 2 then "w-2-chunks" else "w-3plus-chunks", fit, c,
+     if s.queue.isEmpty then "w-queue-empty" else "w-queue-nonempty"]
+
+def encArms (s : SB) : List String :=
+  if s.reading.isSome then ["e-while-reading"] else
+  match s.queue with
+  | [] => ["e-queue-empty"]
+  | ch :: q => [cmpTag "e-chunk-vs-buffer" ch.length s.cap, if q.isEmpty then "e-last-queued" else "e-more-queued"]
+
+def sinkArms (s : SB) (k : Nat) : List String :=
+  match s.reading with
+  | none => ["s-nothing-to-send"]
+  | some e =>
+    let left := e - s.pos
+    [if s.pos = 0 then "s-from-start" else "s-continues", if k = 0 then "s-accepts-0" else cmpTag "s-accept-vs-left" k left]
+
+def tag (l : List String) : String := " @@ " ++ ",".intercalate l
+
 def dstep (st : DState) (toks : List String) : DState × String :=
   match toks with
   | ["reset", "rx", m, l] =>
@@ -56,25 +185,29 @@ def dstep (st : DState) (toks : List String) : DState × String :=
     match st, hexToBytes h with
     | .rx o s, some seg =>
       match feed o s seg with
-      | (s', fs, e) => (.rx o s', s!"ok f={showFrames fs} e={boolStr e} buf={showBuf s'}")
+      | (s', fs, e) => (.rx o s', s!"ok f={showFrames fs} e={boolStr e} buf={showBuf s'}" ++ tag (feedArms o s seg))
     | _, _ => (st, "bad-op")
   | ["eof"] =>
     match st with
-    | .rx _ s => (st, s!"ok clean={boolStr (eofClean s)}")
+    | .rx _ s => (st, s!"ok clean={boolStr (eofClean s)}" ++
+        tag [match s with | none => "eof-after-error" | some [] => "eof-clean" | some _ => "eof-leftover"])
     | _ => (st, "bad-op")
   | ["stream", cuts, h] =>
     match st, parseNatList? cuts, hexToBytes h with
     | .rx o _, some cuts, some bytes =>
       match feedAll o (some []) (cutUp cuts bytes) with
-      | (fs, s') => (.rx o s', s!"ok f={showFrames fs} e={boolStr s'.isNone} clean={boolStr (eofClean s')}")
+      | (fs, s') => (.rx o s', s!"ok f={showFrames fs} e={boolStr s'.isNone} clean={boolStr (eofClean s')}" ++
+          tag ((drainArms o (bytes.length + 1) bytes).eraseDups ++
+               [if cuts.isEmpty then "stream-one-read" else if cuts.all (· = 1) then "stream-bytewise" else "stream-cut"]))
     | _, _, _ => (st, "bad-op")
   | ["write", req, nid, h] =>
     match st, req.toNat?, nid.toNat?, hexToBytes h with
     | .tx c cl s, some req, some nid, some msg =>
+      let t := tag (writeArms s nid msg)
       match s.write c cl req nid msg with
-      | .ok s' cs => (.tx c cl s', s!"ok n={cs.length} {txFlags s'}")
-      | .err e => (st, s!"err {e}")
-      | .panic => (st, "panic")
+      | .ok s' cs => (.tx c cl s', s!"ok n={cs.length} {txFlags s'}" ++ t)
+      | .err e => (st, s!"err {e}" ++ t)
+      | .panic => (st, "panic" ++ t)
     | _, _, _, _ => (st, "bad-op")
   | ["nextid"] =>
     match st with
@@ -87,14 +220,14 @@ def dstep (st : DState) (toks : List String) : DState × String :=
     match st with
     | .tx c cl s =>
       match s.encodeNext with
-      | .ok s' => (.tx c cl s', s!"ok {txFlags s'}")
-      | .err s' e => (.tx c cl s', s!"err {e}")
+      | .ok s' => (.tx c cl s', s!"ok {txFlags s'}" ++ tag (encArms s))
+      | .err s' e => (.tx c cl s', s!"err {e}" ++ tag (encArms s))
     | _ => (st, "bad-op")
   | ["sink", k] =>
     match st, k.toNat? with
     | .tx c cl s, some k =>
       match s.sink k with
-      | .ok s' w => (.tx c cl s', s!"ok x{bytesToHex w} {txFlags s'}")
+      | .ok s' w => (.tx c cl s', s!"ok x{bytesToHex w} {txFlags s'}" ++ tag (sinkArms s k))
       | .panic => (st, "panic")
     | _, _ => (st, "bad-op")
   | ["pump", ks] =>
